@@ -3,7 +3,7 @@ from . import smt
 
 
 class State:
-    __slots__ = ("env", "heap", "pc", "cur_exc", "handlers", "notes", "allocated", "calls")
+    __slots__ = ("env", "heap", "pc", "cur_exc", "handlers", "notes", "allocated", "calls", "snaps")
 
     def __init__(self):
         self.env = {}
@@ -14,6 +14,7 @@ class State:
         self.notes = ()
         self.allocated = ()
         self.calls = 0
+        self.snaps = {}       # label -> State recorded at a snapshot site (never mutated after recording)
 
     def copy(self):
         s = State()
@@ -25,6 +26,7 @@ class State:
         s.notes = self.notes
         s.allocated = self.allocated
         s.calls = self.calls
+        s.snaps = self.snaps
         return s
 
     def assume(self, t):
